@@ -306,7 +306,7 @@ pub fn embedded(name: &str) -> Vec<Vec<u8>> {
         "push.glob" => strs(PUSH_GLOB),
         "push.edits" => strs(PUSH_EDITS),
         "sig.canonical" | "sig.sign_json" => cat(&[SIGNED_EVENTS, SIGNED_JSON, STATE_EVENTS, MESSAGE_EVENTS]),
-        "sig.redact" | "sig.hash_and_sign" => cat(&[SIGNED_EVENTS, STATE_EVENTS, MESSAGE_EVENTS]),
+        "sig.redact" | "sig.hash_and_sign" | "sig.resign_verify" => cat(&[SIGNED_EVENTS, STATE_EVENTS, MESSAGE_EVENTS]),
         "sig.verify_json" => strs(SIGNED_JSON),
         "sig.verify_event" => strs(SIGNED_EVENTS),
         "sig.from_der" => hex(SIG_DER_HEX),
@@ -341,7 +341,7 @@ pub fn wants_fixture_objects(name: &str) -> bool {
     matches!(
         name,
         "ev.timeline" | "ev.sync_timeline" | "ev.state" | "ev.sync_state" | "ev.stripped_state" | "push.event" | "sig.canonical" | "sig.redact" | "sig.sign_json"
-            | "sig.hash_and_sign" | "sig.verify_json" | "sig.verify_event"
+            | "sig.hash_and_sign" | "sig.resign_verify" | "sig.verify_json" | "sig.verify_event"
     )
 }
 
